@@ -44,3 +44,51 @@ Proof.
   split; vm_compute; reflexivity.
 Qed.
 Print Assumptions C01_blocks_generic_refuted.
+
+(* ================= import aliases (generate/imports.go) =================
+   Every package the generated file refers to is imported under its own alias: for EVERY sequence
+   of references, [run_refs] (the model of ref/addImportFor/makeIdentifier) never fails, gives
+   pairwise distinct aliases to pairwise distinct paths, and the same alias again to a path it
+   has seen; the search for a free alias (`pkg`, `pkg2`, `pkg3`, ...) terminates.  The model is
+   tied to the code by replaying, in the kernel, the (path, alias) pairs the real addImportFor
+   logged in every explored generation (Corr/Impcorr.v; verif hook). *)
+From Verif Require Import Gen.Consts Gen.Imports Proofs.ImportsProofs.
+
+Theorem C01_import_aliases_are_distinct :
+  forall paths st al, run_refs paths = Ok (st, al) ->
+  NoDup (map snd (imps st)) /\ NoDup (map fst (imps st))
+  /\ (forall p a, In (p, a) (imps st) -> In a (used st)) /\ List.length al = List.length paths.
+Proof. exact run_refs_invariant. Qed.
+Print Assumptions C01_import_aliases_are_distinct.
+
+Theorem C01_import_allocation_is_total :
+  forall paths, exists st al, run_refs paths = Ok (st, al).
+Proof. exact run_refs_total. Qed.
+Print Assumptions C01_import_allocation_is_total.
+
+Theorem C01_alias_search_terminates :
+  forall base used, pick (S (List.length used)) base 2 used base <> OutOfFuel.
+Proof. exact pick_never_out_of_fuel. Qed.
+Print Assumptions C01_alias_search_terminates.
+
+Theorem C01_same_path_same_alias :
+  forall paths st al i j p q a a', run_refs paths = Ok (st, al) ->
+  nth_error paths i = Some p -> nth_error paths j = Some q ->
+  nth_error al i = Some a -> nth_error al j = Some a' -> (p = q <-> a = a').
+Proof. exact run_refs_alias_iff_path. Qed.
+Print Assumptions C01_same_path_same_alias.
+
+(* an alias is a usable Go identifier (letters, digits, `_`, not starting with a digit) ... *)
+Theorem C01_alias_is_name_shaped :
+  forall s, exists c r, make_identifier s = c :: r /\ name_start c = true /\ is_digit c = false /\ forallb name_cont r = true.
+Proof. exact make_identifier_is_usable. Qed.
+Print Assumptions C01_alias_is_name_shaped.
+
+(* ... except that it can be a Go KEYWORD: makeIdentifier's documentation ("returns a valid go
+   identifier") is refuted for a last path segment such as `type` or `go` (token.IsIdentifier
+   rejects the keyword, the munging loop then keeps every letter).  The exact characterisation: *)
+Theorem C01_alias_can_be_a_keyword_refuted :
+  (exists s, is_identifier (make_identifier s) = false)
+  /\ (forall s, is_identifier (make_identifier s) = false <-> In (munge false s) go_keywords).
+Proof. split; [exact make_identifier_keyword_refuted | exact make_identifier_fails_iff]. Qed.
+Print Assumptions C01_alias_can_be_a_keyword_refuted.
